@@ -72,7 +72,18 @@ def cases(rng, tier):
 
 
 def search(rng, ops, broken):
-    return cases(rng, "quick")
+    """only runs when a proof obligation or the correspondence broke: besides a fresh quick batch, a large batch of `deduce` on
+    non-dyadic rationals (thirds, fifths, tenths, quarters at 3x3), where results sit on the simplex boundary up to rounding"""
+    out = cases(rng, "quick")
+    for _ in range(120000):
+        fmt = rng.choice(["f32", "f32", "f64"])
+        n, m = rng.choice([(2, 2), (3, 3), (3, 3), (2, 3), (3, 2)])
+        q = rng.choice([3, 3, 5, 10, 4])
+        ax = [float(v) for v in G.rand_dist(rng, n, q, positive=True)]
+        conds = [float(v) for v in G.rand_cond(rng, n, m, q, [rng.choice(["dog", "dog", "int", "any"]) for _ in range(n)])]
+        b, u = G.rand_simplex(rng, n, q, rng.choice(["int", "any", "dog", "vac"]))
+        out.append(G.line("deduce", fmt, rng.choice(["A", "M", "D"]) + "." + rng.choice(["o", "r"]), [n, m], b + [u] + ax + conds))
+    return out
 
 
 # tie theorems (substrings of SLV.Gen.*Tie theorem names) this property's operators depend on
